@@ -19,6 +19,31 @@ RULE = ('Hypothesis rule-based state machines: state = a pool of 5-10 sentences 
         'calls raise before any grammar callback. non-trivial = a batch with >=3 sentences containing a failure among '
         'successes in an order different from pool order, chunked or after the category table grew; distinct by step digest')
 
+import multiprocessing
+import multiprocessing.pool
+import time as _time
+
+
+def _delayed(delay, func, args, kwds):
+    _time.sleep(delay)
+    return func(*args, **kwds)
+
+
+class ReversingPool(multiprocessing.pool.Pool):
+    """a worker pool whose earlier tasks start later, so that chunks complete in reverse order: the harness owns
+    the schedule of the multi-process branch instead of hoping for an unlucky one (the code under test is unmodified;
+    it only receives this class as its Pool)"""
+
+    def __init__(self, processes=None):
+        super().__init__(processes, context=multiprocessing.get_context('fork'))
+        self._k = 0
+
+    def apply_async(self, func, args=(), kwds={}, callback=None, error_callback=None):
+        self._k += 1
+        delay = max(0.0, 0.45 - 0.15 * self._k)
+        return super().apply_async(_delayed, (delay, func, args, kwds), {}, callback, error_callback)
+
+
 BIG = 20000     # 'high' step budget: bounds the n-best search, which explores every derivation when fewer than nbest exist
 
 
@@ -145,15 +170,20 @@ def check_step(world, step, info=None):
     rt = native.setup()
     del rt.unraisable[:]
     del rt.faults[:]
+    real_pool = depccg.parsing.Pool
+    if step.get('schedule') == 'reversed':
+        depccg.parsing.Pool = ReversingPool
     try:
         if single_form:
             res = depccg.parsing.run(docs[0], scores[0], cats, roots, world.grammar.binary, world.grammar.unary, **cfg)
         else:
             res = depccg.parsing.run(docs, scores, cats, roots, world.grammar.binary, world.grammar.unary, **cfg)
     except Exception as ex:
+        depccg.parsing.Pool = real_pool
         bad(f'raises/{type(ex).__name__}', f'batch {idxs} (processes={step["processes"]}, '
             f'max_chunk_size={step["max_chunk_size"]}, max_step={max_step}): {type(ex).__name__}: {ex}')
         return fails
+    depccg.parsing.Pool = real_pool
     for f in list(rt.unraisable) + list(rt.faults):
         bad('fault', f'batch {idxs}: {f}')
     if [str(c) for c in cats] != case['tags'] or [str(c) for c in roots] != case['roots']:
@@ -200,7 +230,8 @@ def check_step(world, step, info=None):
         if case['head_mode'] in ('left', 'right'):
             ev = _feasibility(world, idx)
             if ev is not None:
-                if ev and is_ph(big):
+                if ev and is_ph(big) and p is not None and p < BIG:
+                    # (a search that used the whole 'high' budget is inconclusive, not a failure to find a parse)
                     bad('failed-but-parse-exists', f'sentence {idx} alone: placeholder although a derivation exists')
                 if not ev and not is_ph(big):
                     bad('parsed-but-no-derivation', f'sentence {idx} alone: parsed although no derivation exists')
@@ -267,6 +298,9 @@ def build_step(data, world, allow_mp):
         step['max_chunk_size'] = max(mcs, len(idxs) + 1)
         return step
     step['single_form'] = t.chance(128)
+    if len(idxs) > step['max_chunk_size'] and t.chance(150):
+        step['schedule'] = 'reversed'
+        step['processes'] = max(2, step['processes'])
     if t.chance(90):
         step['budget'] = [t.pick(idxs), t.pick([-1, 0])]
     return step
@@ -284,7 +318,7 @@ def replay(case):
 def _shard(ctx, shard, nshards):
     native.setup()
     mp_budget = [ctx.scale(2, 12)]
-    n_machines = ctx.scale(100, 400)
+    n_machines = ctx.scale(100, 600)
 
     class Machine(RuleBasedStateMachine):
         def __init__(self):
@@ -313,6 +347,7 @@ def _shard(ctx, shard, nshards):
                        and info.get('reordered', False))
             cls = stp['kind'] + ('/' + stp['defect'] if stp['kind'] == 'malformed' else
                                  ('/chunked-multiprocess' if info.get('chunked') else '')
+                                 + ('/reversed-completion-order' if stp.get('schedule') == 'reversed' else '')
                                  + ('/budget' if info.get('budget') else '')
                                  + ('/single-form' if stp.get('single_form') and len(stp['batch']) == 1 else '')
                                  + ('/mixed-failures' if 0 < info.get('nfail', 0) < info.get('size', 0) else ''))
